@@ -131,4 +131,27 @@ theorem convert_ok_iff {β : Type} [NumOps β] (tbl : Table β) (hn : NamesDisti
     · exact ⟨_, convert_zero' tbl q U hz⟩
     · exact convComplete tbl hn q U hv
 
+/-- `q -> U` is displayed as a multiple of `U` exactly when `U` has a magnitude other than 1, in exactly the
+unit of `U`, and the explicit conversion switches automatic simplification off. A display target of an earlier
+conversion never survives. -/
+theorem display_target {β : Type} [NumOps β] (tbl : Table β) (a b : Quantity β) (d : Displayed β)
+    (h : vmConvertDisplay tbl a b = .ok d) :
+    d.q.unit = b.unit ∧ d.q.canSimplify = false ∧
+      (d.target = if beq b.value one then none else some b) := by
+  unfold vmConvertDisplay vmConvertTo at h
+  cases hc : convertTo tbl a b.unit with
+  | error e => rw [hc] at h; cases h
+  | ok r =>
+    rw [hc] at h
+    cases h
+    refine ⟨?_, rfl, rfl⟩
+    simp only
+    unfold convertTo at hc
+    split at hc
+    · cases hc; rfl
+    · simp only at hc
+      split at hc
+      · cases hc; rfl
+      · cases hc
+
 end NumbatModel.Qty
